@@ -62,7 +62,7 @@ def compare(sc, runs, limit=None):
                 c = [l for l in r["case_lines"] if not l.startswith("strategy") and l != "cend"]
                 fh.write("\n".join(c + ["strategy replay " + r["sched"], "cend"]) + "\n")
         with open(f) as fin:
-            return subprocess.run([CMODEL], stdin=fin, stdout=subprocess.PIPE, stderr=subprocess.PIPE, text=True)
+            return subprocess.run([CMODEL], stdin=fin, stdout=subprocess.PIPE, stderr=subprocess.PIPE, text=True, errors="replace")
 
     with ThreadPoolExecutor(max_workers=len(blocks)) as ex:
         procs = list(ex.map(one, range(len(blocks))))
